@@ -485,17 +485,23 @@ func stressCase(idx int64, r *rand.Rand) {
 // it holds the unit.
 func releaseAtPoint(t *testing.T, idx int64, r *rand.Rand) {
 	c := genCfg(r)
+	if idx%44 == 7 {
+		c.Pool, c.Ordering = "generic", "random" // one in four: the points only an instrumented delegate can produce
+	}
 	c.Callers, c.Backlog, c.Timeout, c.Yields, c.SmallWin = c.Limit+1, 1+r.IntN(3), time.Hour, 0, false
 	points := []string{"queue.before_push", "queue.after_push"}
 	if c.Ordering == "random" {
 		points = []string{"blocking.helper_before_lock"}
 		if c.Pool == "generic" {
 			// seen from the (instrumented) delegate of a generic pool: right after the caller's first / second refused attempt
-			points = append(points, "after-refused-attempt-1", "after-refused-attempt-2")
+			points = append(points, "after-refused-attempt-1", "after-refused-attempt-2", "slow-inner-release")
 		}
 		c.Timeout = 0
 	}
 	point := points[r.IntN(len(points))]
+	if idx%44 == 7 {
+		point = points[1+r.IntN(len(points)-1)]
+	}
 	yields := []int{200, 2000, 20000}[r.IntN(3)]
 	var served, returned bool
 	rt.Scenario(fmt.Sprintf("C19/%s-%s/release@%s", c.Pool, c.Ordering, point), idx, c)
@@ -505,8 +511,14 @@ func releaseAtPoint(t *testing.T, idx int64, r *rand.Rand) {
 		var held []core.Listener
 		var callerGoID atomic.Int64
 		refused := 0
+		var slow atomic.Bool
 		p := buildWith(c, func(in core.Limiter) core.Limiter {
 			g := inject.NewGate(in)
+			g.BeforeInnerRelease = func(string) {
+				if slow.Load() { // a delegate whose listener takes its time to give the unit back
+					time.Sleep(time.Millisecond)
+				}
+			}
 			g.Hook = func(e inject.GateEvent) {
 				if e.OK || !armed.Load() || e.GoID != callerGoID.Load() || !strings.HasPrefix(point, "after-refused-attempt-") {
 					return
@@ -546,6 +558,15 @@ func releaseAtPoint(t *testing.T, idx int64, r *rand.Rand) {
 		go func() { callerGoID.Store(inject.GoID()); l, ok = p.Acquire(context.Background()); done.Store(true) }()
 		synctest.Wait()
 		armed.Store(false)
+		if point == "slow-inner-release" {
+			// the caller is parked; the holder completes through a delegate listener that is slow to return the unit: the
+			// caller is served once the unit is really back, however early it was told to look
+			slow.Store(true)
+			held[0].OnSuccess()
+			slow.Store(false)
+			fired.Store(true)
+			synctest.Wait()
+		}
 		if !fired.Load() { // point not on this path (it is, for every pool kind): release the plain way
 			held[0].OnSuccess()
 			synctest.Wait()
